@@ -35,7 +35,7 @@ def build_factgen():
         raise FactgenError("cannot build factgen:\n" + r.stdout[-4000:])
 
 
-def generate(repo=REPO, features=(), crates=("riti",), deps=False, tag="riti"):
+def generate(repo=REPO, features=(), crates=("riti",), deps=False, tag="riti", test_cfg=False):
     """Returns (doc_by_crate, info). Always re-analyses the riti crate itself."""
     if not os.path.exists(FACTGEN):
         build_factgen()
@@ -72,6 +72,8 @@ def generate(repo=REPO, features=(), crates=("riti",), deps=False, tag="riti"):
         cmd = ["cargo", "+nightly", "check", "--offline", "--lib"]
         if features:
             cmd += ["--features", ",".join(features)]
+        if test_cfg:
+            cmd += ["--profile", "test"]
         r = subprocess.run(cmd, cwd=repo, env=env, stdout=subprocess.PIPE, stderr=subprocess.STDOUT, text=True)
         if r.returncode != 0:
             raise FactgenError("cargo check of %s failed (does the tree compile?):\n%s" % (repo, r.stdout[-6000:]))
